@@ -345,20 +345,263 @@ func Reach(from *ssa.BasicBlock, blockedB map[*ssa.BasicBlock]bool, blockedE map
 		return seen
 	}
 	infeasible := infeasibleEdges(from.Parent())
-	stack := []*ssa.BasicBlock{from}
+	thr := threadInfo(from.Parent())
+	// states are (block, entered-from) for blocks whose branch outcome is fixed by the incoming edge
+	type state struct{ b, via *ssa.BasicBlock }
+	seenS := map[state]bool{}
+	stack := []state{{from, nil}}
 	seen[from] = true
+	seenS[state{from, nil}] = true
 	for len(stack) > 0 {
-		b := stack[len(stack)-1]
+		st := stack[len(stack)-1]
 		stack = stack[:len(stack)-1]
-		for _, s := range b.Succs {
-			if seen[s] || blockedB[s] || blockedE[Edge{b, s}] || infeasible[Edge{b, s}] {
+		b := st.b
+		succs := b.Succs
+		if st.via != nil {
+			if only, ok := thr[Edge{st.via, b}]; ok {
+				succs = []*ssa.BasicBlock{only}
+			}
+		}
+		for _, s := range succs {
+			if blockedB[s] || blockedE[Edge{b, s}] || infeasible[Edge{b, s}] {
 				continue
 			}
+			ns := state{s, nil}
+			if _, threaded := thr[Edge{b, s}]; threaded {
+				ns.via = b
+			}
+			if seenS[ns] {
+				continue
+			}
+			seenS[ns] = true
 			seen[s] = true
-			stack = append(stack, s)
+			stack = append(stack, ns)
 		}
 	}
 	return seen
+}
+
+var threadCache = map[*ssa.Function]map[Edge]*ssa.BasicBlock{}
+
+// threadInfo: for an edge P->T where T ends in a branch whose outcome is fixed by the value a phi
+// of T takes when T is entered from P (a boolean phi, or a phi compared with nil), the only
+// successor of T that can follow. This is jump threading: it removes the infeasible pass-through
+// paths of flags and of (value, error) pairs merged at a join.
+func threadInfo(fn *ssa.Function) map[Edge]*ssa.BasicBlock {
+	if fn == nil {
+		return nil
+	}
+	if m, ok := threadCache[fn]; ok {
+		return m
+	}
+	m := map[Edge]*ssa.BasicBlock{}
+	threadCache[fn] = m
+	for _, t := range fn.Blocks {
+		if len(t.Instrs) == 0 || len(t.Succs) != 2 || t.Succs[0] == t.Succs[1] {
+			continue
+		}
+		iff, ok := t.Instrs[len(t.Instrs)-1].(*ssa.If)
+		if !ok {
+			continue
+		}
+		cond := iff.Cond
+		neg := false
+		for {
+			if u, isU := cond.(*ssa.UnOp); isU && u.Op == token.NOT {
+				cond, neg = u.X, !neg
+				continue
+			}
+			break
+		}
+		var phi *ssa.Phi
+		mode := ""
+		var op token.Token
+		switch x := cond.(type) {
+		case *ssa.Phi:
+			if x.Block() == t {
+				phi, mode = x, "bool"
+			}
+		case *ssa.BinOp:
+			if (x.Op == token.EQL || x.Op == token.NEQ) && IsNilConst(x.Y) {
+				if p, isPhi := x.X.(*ssa.Phi); isPhi && p.Block() == t && x.Block() == t {
+					phi, mode, op = p, "nil", x.Op
+				}
+			}
+		}
+		if phi == nil {
+			continue
+		}
+		for i, e := range phi.Edges {
+			p := t.Preds[i]
+			var outcome, known bool
+			switch mode {
+			case "bool":
+				if k, isC := ConstBool(e); isC {
+					outcome, known = k, true
+				} else if factPlain(e, true, p) {
+					outcome, known = true, true
+				} else if factPlain(e, false, p) {
+					outcome, known = false, true
+				}
+			case "nil":
+				isNil, kn := nilnessPlain(e, p)
+				if kn {
+					outcome, known = isNil == (op == token.EQL), true
+				}
+			}
+			if !known {
+				continue
+			}
+			if neg {
+				outcome = !outcome
+			}
+			if outcome {
+				m[Edge{p, t}] = t.Succs[0]
+			} else {
+				m[Edge{p, t}] = t.Succs[1]
+			}
+		}
+	}
+	return m
+}
+
+// factPlain: boolean v is known to equal want at the end of block p (plain dominance, no threading),
+// including the case where p itself ends in `if v` and is left towards a single successor... which
+// cannot be told here, so only dominating branches count.
+func factPlain(v ssa.Value, want bool, p *ssa.BasicBlock) bool {
+	fn := p.Parent()
+	for _, b := range fn.Blocks {
+		if len(b.Instrs) == 0 || len(b.Succs) != 2 || b.Succs[0] == b.Succs[1] {
+			continue
+		}
+		iff, ok := b.Instrs[len(b.Instrs)-1].(*ssa.If)
+		if !ok {
+			continue
+		}
+		c, w := iff.Cond, want
+		for {
+			if u, isU := c.(*ssa.UnOp); isU && u.Op == token.NOT {
+				c, w = u.X, !w
+				continue
+			}
+			break
+		}
+		if c != v {
+			continue
+		}
+		idx := 0
+		if !w {
+			idx = 1
+		}
+		if edgeDominatesPlain(b, b.Succs[idx], p) {
+			return true
+		}
+	}
+	return false
+}
+
+// nilnessPlain: value e is known nil / non-nil at the end of block p.
+func nilnessPlain(e ssa.Value, p *ssa.BasicBlock) (isNil, known bool) {
+	if IsNilConst(e) {
+		return true, true
+	}
+	switch e.(type) {
+	case *ssa.Alloc, *ssa.MakeInterface, *ssa.MakeClosure, *ssa.MakeMap, *ssa.MakeSlice:
+		return false, true
+	}
+	refs := e.Referrers()
+	if refs == nil {
+		return false, false
+	}
+	for _, u := range *refs {
+		bo, ok := u.(*ssa.BinOp)
+		if !ok || !(bo.Op == token.EQL || bo.Op == token.NEQ) || !(IsNilConst(bo.Y) || IsNilConst(bo.X)) {
+			continue
+		}
+		if factPlain(bo, true, p) {
+			return bo.Op == token.EQL, true
+		}
+		if factPlain(bo, false, p) {
+			return bo.Op == token.NEQ, true
+		}
+	}
+	return false, false
+}
+
+// PhiValuesAt returns the edge values of phi that are compatible with control reaching block at
+// (taking jump threading into account). A non-phi value is returned as is.
+func PhiValuesAt(v ssa.Value, at *ssa.BasicBlock) []ssa.Value {
+	phi, ok := v.(*ssa.Phi)
+	if !ok {
+		return []ssa.Value{v}
+	}
+	t := phi.Block()
+	thr := threadInfo(t.Parent())
+	// conditions known at `at` that test a sibling phi of the same join exclude the edges on which
+	// that sibling has the other value (correlated phis: `v, ok := ...` merged at one join)
+	excluded := map[int]bool{}
+	if at != t {
+		for _, cd := range DominatingConds(at) {
+			switch x := cd.V.(type) {
+			case *ssa.Phi:
+				if x.Block() != t || len(x.Edges) != len(phi.Edges) {
+					continue
+				}
+				for i, e := range x.Edges {
+					if k, isC := ConstBool(e); isC && k != cd.Want {
+						excluded[i] = true
+					}
+				}
+			case *ssa.BinOp:
+				if !(x.Op == token.EQL || x.Op == token.NEQ) || !IsNilConst(x.Y) {
+					continue
+				}
+				q, isPhi := x.X.(*ssa.Phi)
+				if !isPhi || q.Block() != t || len(q.Edges) != len(phi.Edges) {
+					continue
+				}
+				for i, e := range q.Edges {
+					isNil, known := nilnessPlain(e, t.Preds[i])
+					if !known {
+						continue
+					}
+					outcome := isNil == (x.Op == token.EQL)
+					if outcome != cd.Want {
+						excluded[i] = true
+					}
+				}
+			}
+		}
+	}
+	var out []ssa.Value
+	for i, e := range phi.Edges {
+		if excluded[i] {
+			continue
+		}
+		p := t.Preds[i]
+		starts := t.Succs
+		if only, ok := thr[Edge{p, t}]; ok {
+			starts = []*ssa.BasicBlock{only}
+		}
+		reach := at == t
+		for _, s := range starts {
+			if s == at || Reach(s, nil, nil)[at] {
+				reach = true
+			}
+		}
+		if reach {
+			dup := false
+			for _, o := range out {
+				if o == e {
+					dup = true
+				}
+			}
+			if !dup {
+				out = append(out, e)
+			}
+		}
+	}
+	return out
 }
 
 var infeasibleCache = map[*ssa.Function]map[Edge]bool{}
